@@ -114,6 +114,46 @@ fn check_subsets(rep: &mut Report, s: &Setup) {
             rep.count("subsets exactly at 2/3 (either answer allowed)");
         }
     }
+    // the same proofs padded with VALID signatures of keys that hold no voting power (1, n+1 and 4n+1 of them, so that
+    // the proof has more entries than there are stakers, stakes, or both): the signers' power is what counts, and
+    // adding valid signatures never un-confirms
+    let bystanders: Vec<_> = (0..(4 * n + 1)).map(|i| key_n(7000 + i as u64, 1)).collect();
+    let bsigs: Vec<Bytes> = bystanders.iter().map(|k| Bytes::from(k.sk.sign(&hh.0))).collect();
+    for mask in 0..(1usize << n) {
+        if n > 4 && mask % 5 != 0 && mask != (1 << n) - 1 {
+            continue;
+        }
+        for pad in [1usize, n + 1, 4 * n + 1] {
+            rep.eval();
+            let mut proof = BTreeMap::new();
+            let mut present = 0u128;
+            for i in 0..n {
+                if mask & (1 << i) != 0 {
+                    proof.insert(s.keys[i].pk, sigs[i].clone());
+                    present += s.power[i];
+                }
+            }
+            for j in 0..pad {
+                proof.insert(bystanders[j].pk, bsigs[j].clone());
+            }
+            rep.count("proofs padded with valid signatures of non-voters");
+            let got = match confirm(s, proof) {
+                Ok(g) => g,
+                Err(m) => {
+                    rep.violate("C14|confirm-panics|SealedState::confirm|valid-signatures,non-voters-added", format!("confirm panicked: {}", m), json!({"setup": s.desc, "signers_mask": mask, "non_voters": pad}));
+                    continue;
+                }
+            };
+            let wit = json!({"setup": s.desc, "signers_mask": format!("{:b}", mask), "valid_signatures_of_non_voters": pad, "present": present.to_string(), "total": s.total.to_string(), "confirmed": got});
+            if big3(present) > big2(s.total) && !got {
+                rep.violate("C14|majority-does-not-confirm|SealedState::confirm|valid-signatures-of-non-voters-added", "a proof with valid signatures from more than two thirds of the voting power does not confirm once valid signatures of keys without voting power are added".into(), wit);
+            } else if big3(present) < big2(s.total) && got {
+                rep.violate("C14|minority-confirms|SealedState::confirm|valid-signatures-of-non-voters-added", "signers holding less than two thirds confirm the state when keys without voting power sign as well".into(), wit);
+            } else if outcome[mask] && !got {
+                rep.violate("C14|adding-signature-unconfirms|SealedState::confirm|non-voter-added", "a confirming proof stops confirming when valid signatures of non-voters are added".into(), wit);
+            }
+        }
+    }
     // monotonicity: adding a valid signature never un-confirms
     for mask in 0..(1usize << n) {
         for i in 0..n {
@@ -259,5 +299,6 @@ pub fn run(p: &Params) -> Report {
     }
     rep.require("subsets above 2/3", 200);
     rep.require("subsets below 2/3", 200);
+    rep.require("proofs padded with valid signatures of non-voters", 500);
     rep
 }
